@@ -1,6 +1,6 @@
 (* The comparison functions that the correspondence engine evaluates on harness output
    (extracted to OCaml for volume; the same definitions run under vm_compute for the cross-check). *)
-From AidlV Require Export Run.Sx Model.Validation Spec.Methods.
+From AidlV Require Export Run.Sx Model.Validation Spec.Master.
 
 (* verdicts: 0 = holds, 1 = fails, 2 = the harness output could not be decoded, 3 = unknown check *)
 Definition run_bool {X} (d : sx -> option X) (f : X -> bool) (s : sx) : N :=
@@ -75,10 +75,87 @@ Definition corr_C09 (c : list file_result * list file_result) : bool :=
     | None => false
     end) c.
 
+(* ------------------------------------------------------------------ C05-C08, C10: label-based projections *)
+Definition labelled (labels : list string) (d : diag) : bool := existsb (fun l => ctx_is l d) labels.
+
+Definition corr_by (sel : aidl -> diag -> bool) (tree : bool) (c : list file_result * list file_result) : bool :=
+  for_files (fun a a' ds0 ds =>
+    match model_file (fst c) a ds0 with
+    | Some (am, dm) => list_eqb diag_eqb (filter (sel a') dm) (filter (sel a') ds) && (negb tree || aidl_eqb am a')
+    | None => false
+    end) c.
+
+Definition spec_by (sel : aidl -> diag -> bool) (expected : env -> aidl -> aidl -> list diag)
+           (c : list file_result * list file_result) : bool :=
+  let defined := collect_item_keys (fst c) in
+  for_files (fun a a' ds0 ds => multiset_eqb diag_eqb (filter (sel a') ds) (expected defined a a')) c.
+
+(* C05 *)
+Definition is_c05 (a : aidl) := labelled ["unknown type"]%string.
+Definition corr_C05 := corr_by is_c05 true.
+Definition spec_C05 (c : list file_result * list file_result) : bool :=
+  let defined := collect_item_keys (fst c) in
+  for_files (fun a a' ds0 ds =>
+    (* the returned tree is the parse-stage tree re-kinded by the scoping rules (and oneway propagated) *)
+    aidl_eqb a' (sp_tree defined a) &&
+    multiset_eqb diag_eqb (filter (is_c05 a') ds) (sp_unknown defined a)) c.
+
+(* C06 *)
+Definition is_c06 (a : aidl) (d : diag) : bool :=
+  labelled ["unresolved import"; "unused import"; "conflicting declaration"; "duplicated declaration";
+            "unused declared parcelable"; "declared parcelable"]%string d
+  || (ctx_is "duplicated import" d && in_ranges (d_range d) (map im_sym (ai_imports a))).
+Definition corr_C06 := corr_by is_c06 false.
+Definition spec_C06 := spec_by is_c06 (fun defined a a' => sp_imports defined a ++ sp_declared defined a).
+
+(* C07: counted per argument against the statement's table, independently of check_arg *)
+Definition dir_label_list : list string := ["missing direction"; "invalid direction"; "invalid argument"]%string.
+Definition is_c07 (a : aidl) := labelled dir_label_list.
+Definition corr_C07 := corr_by is_c07 false.
+Definition spec_C07 (c : list file_result * list file_result) : bool :=
+  for_files (fun a a' ds0 ds =>
+    let dd := filter (is_c07 a') ds in
+    let args := flat_map (fun m => map (fun x => (m, x)) (m_args m)) (methods_of (ai_item a')) in
+    forallb (fun d => dkind_eqb (d_kind d) DError && is_empty (d_related d)) dd &&
+    forallb (fun '(m, x) =>
+               Nat.eqb (length (filter (fun d => range_eqb (d_range d) (where_ x)) dd))
+                       (expected_dir_errors (cat (ty_kind (a_ty x))) (dir_of (a_dir x)) (m_oneway m))) args &&
+    Nat.eqb (length dd)
+            (fold_right Nat.add 0%nat
+               (map (fun '(m, x) => expected_dir_errors (cat (ty_kind (a_ty x))) (dir_of (a_dir x)) (m_oneway m)) args))) c.
+
+(* C08 *)
+Definition is_c08 (a : aidl) :=
+  labelled ["invalid parameter"; "unsupported array"; "invalid element"; "invalid map key"; "invalid map value";
+            "non-generic list"; "non-generic map"]%string.
+Definition corr_C08 := corr_by is_c08 false.
+Definition spec_C08 := spec_by is_c08 (fun defined a a' => flat_map spec_container_ty (top_types (ai_item a'))).
+
+(* C10 *)
+Definition is_c10 (a : aidl) := labelled ["redundant oneway"; "must be void"]%string.
+Definition corr_C10 := corr_by is_c10 true.
+Definition spec_C10 (c : list file_result * list file_result) : bool :=
+  let defined := collect_item_keys (fst c) in
+  for_files (fun a a' ds0 ds =>
+    aidl_eqb a' (sp_tree defined a) &&
+    (* flags: interface flag or the method's own; everything else about the item as resolved *)
+    list_eqb Bool.eqb (map m_oneway (methods_of (ai_item a')))
+             (match ai_item a with
+              | ItInterface i => map (fun m => i_oneway i || m_oneway m) (methods_of (ai_item a))
+              | _ => []
+              end) &&
+    multiset_eqb diag_eqb (filter (is_c10 a') ds)
+      (spec_redundant (ai_item a) ++ flat_map spec_return (methods_of (ai_item a')))) c.
+
 Definition checks : list (string * (sx -> N)) :=
   [ ("corr_validate"%string, run_bool d_vcase corr_validate);
     ("corr_C09"%string, run_bool d_vcase corr_C09);
-    ("spec_C09"%string, run_bool d_vcase spec_C09) ].
+    ("spec_C09"%string, run_bool d_vcase spec_C09);
+    ("corr_C05"%string, run_bool d_vcase corr_C05); ("spec_C05"%string, run_bool d_vcase spec_C05);
+    ("corr_C06"%string, run_bool d_vcase corr_C06); ("spec_C06"%string, run_bool d_vcase spec_C06);
+    ("corr_C07"%string, run_bool d_vcase corr_C07); ("spec_C07"%string, run_bool d_vcase spec_C07);
+    ("corr_C08"%string, run_bool d_vcase corr_C08); ("spec_C08"%string, run_bool d_vcase spec_C08);
+    ("corr_C10"%string, run_bool d_vcase corr_C10); ("spec_C10"%string, run_bool d_vcase spec_C10) ].
 
 Definition dispatch (name : str) (s : sx) : N :=
   match find (fun c => str_eqb (lit (fst c)) name) checks with
